@@ -6,6 +6,8 @@
     m2 pow|atan2 <val> <val>
     mx max|min <val>*
     encc uri|comp <sv> <sv>  encodeURI(a + b): the `+` of the interpreter, then the encoder
+    txt <fn> <val>*          the TEXT form and Go kind of the result of Math.<fn>: String(r), r + "", the property
+                             key made from r (all three must agree) and %T of Export(); answer t:<hex>;<type>
     mxo max|min|atan2|pow <val>*   every argument is an object whose valueOf returns <val>; answer <result>;<mask of
                              the arguments whose valueOf was called>
     isNaN <val> | isFinite <val>
@@ -20,6 +22,7 @@
 import OttoVerif.Base.Proto
 import OttoVerif.Base.ParseNumber
 import OttoVerif.C13.Spec
+import OttoVerif.C06.Spec
 namespace OttoVerif.C13.Driver
 open OttoVerif.F64 OttoVerif.Proto OttoVerif.C13 OttoVerif.Str
 
@@ -135,6 +138,29 @@ def devLog (x : FV) : Bool :=
   | .fin false m e => m ≠ 0 && logFrexpAmd64 m e != x
   | _ => false
 
+/-- (model result, spec result, dev) of Math.<fn>(args) -/
+def mathRes (f : String) (l : List FV) : Option (FV × FV × String) :=
+  let arg (i : Nat) : FV := l.getD i .nan
+  match fn1? f with
+  | some fn =>
+    let x := arg 0
+    let dev := if fn = .exp && devExp x then "exp_overflow_early" else if fn = .log && devLog x then "log_subnormal" else "-"
+    some (mathFn1 lib fn x, (Spec.fn1Table fn x).getD (ref1 fn x), dev)
+  | none =>
+    match f with
+    | "abs" => some (mathAbs (arg 0), Spec.abs (arg 0), "-")
+    | "floor" => some (mathFloor (arg 0), Spec.floor (arg 0), "-")
+    | "ceil" => some (mathCeil (arg 0), Spec.ceil (arg 0), "-")
+    | "trunc" => some (mathTrunc (arg 0), Spec.trunc (arg 0), "-")
+    | "round" => some (mathRound (arg 0), Spec.round (arg 0), "-")
+    | "max" => some (mathMax l, Spec.max l, "-")
+    | "min" => some (mathMin l, Spec.min l, "-")
+    | "pow" => some (mathPow lib (arg 0) (arg 1), (Spec.powTable (arg 0) (arg 1)).getD (refPow (arg 0) (arg 1)),
+                     if devPowLog (arg 0) (arg 1) then "log_subnormal" else "-")
+    | "atan2" => some (mathAtan2 lib (arg 0) (arg 1), (Spec.atan2Table (arg 0) (arg 1)).getD (refAtan2 (arg 0) (arg 1)),
+                       if devAtan2 (arg 0) (arg 1) then "atan2_underflow" else "-")
+    | _ => none
+
 partial def handle (ws : List String) : String :=
   match ws with
   | ["m1", f] => handle ["m1", f, "u"]
@@ -178,6 +204,16 @@ partial def handle (ws : List String) : String :=
   | "mx" :: "min" :: ts =>
     match allNums ts with
     | some l => reply (exactOut (mathMin l)) (exactOut (Spec.min l)) "-"
+    | none => "bad-op"
+  | "txt" :: f :: ts =>
+    match allNums ts with
+    | some l =>
+      match mathRes f l with
+      | some (m, sp, dev) =>
+        let v := mathValue m
+        reply ("t:" ++ bytesOut (numValText OttoVerif.C06.Spec.exactLib v) ++ ";" ++ exportType v)
+          ("t:" ++ bytesOut (Spec.resultText sp) ++ ";" ++ Spec.resultExportType) dev
+      | none => "bad-op"
     | none => "bad-op"
   | "mxo" :: op :: ts =>
     -- every argument is an object whose valueOf returns the given primitive; answer = result;call-mask
